@@ -127,8 +127,34 @@ class CallMixin:
             return [(st, self.escaped_objs[v.t].attrs[name])]
         t = f"({self.cur_attr(st, name)} {asV(v)})"
         hint = self.attr_kinds.get(name)
-        val = Val(t, kind=hint[0] if hint else None, cls=hint[1] if hint else None)
-        return self.raising(st, val, [(AttributeError, Eq(t, "v_absent"))], node)
+        src = None
+        try:
+            src = ast.unparse(node) if isinstance(node, ast.Attribute) else None
+        except Exception:
+            pass
+        if src and src in self.contract.kinds:
+            hint = self.kind_hint(self.contract.kinds[src])
+        val = Val(t, kind=hint[0] if hint else None, cls=hint[1] if hint else None,
+                  origin=(f"{v.origin}.{name}" if v.origin else None))
+        res = self.raising(st, val, [(AttributeError, Eq(t, "v_absent"))], node)
+        if hint:
+            self.obl("kind", node, res[-1][0], self.kind_pred(hint, t), detail=f"{src or name} is {hint[0]}")
+        return res
+
+    def kind_hint(self, k):
+        if isinstance(k, tuple):
+            return k
+        if k in self.spec_names:
+            return ("obj", self.spec_names[k])
+        return (k, None)
+
+    def kind_pred(self, hint, t):
+        kind, cls = hint
+        if kind == "obj" and cls is not None:
+            return f"(and (k_obj {t}) (isinst1 {t} {self.ctab.cid(cls)}))"
+        if kind == "num":
+            return f"(is_num {t})"
+        return f"(k_{kind} {t})"
 
     # ------------------------------------------------------------ calls
     def e_Call(self, st, n):
@@ -285,7 +311,7 @@ class CallMixin:
         self.called_contracts.add(c.name)
         if c.trusted:
             self.trusted_used.add(f"assumed contract: {c.name} ({c.note})" if c.note else f"assumed contract: {c.name}")
-        sp = SpecEval(self, env)
+        sp = SpecEval(self, env, glob=fi.glob)
         # precondition
         pre = sp.compile_bool(c.requires)
         self.obl("pre", node, st, pre, detail=f"requires of {c.name}: {c.requires}")
@@ -319,7 +345,12 @@ class CallMixin:
         s3 = st.fork()
         for t in noraise:
             s3.assume(t)
-        res = self.contract_result(s3, c, env, node)
+        if c.ghost.get("function"):
+            # functional contract: the result *is* this term of the arguments (no fresh symbol)
+            res = sp.ev(ast.parse(c.ghost["function"], mode="eval").body)
+            res.kind = c.result_kind or res.kind
+        else:
+            res = self.contract_result(s3, c, env, node)
         out.append((s3, res))
         # frame: the callee's modifies must be covered here
         for m in c.modifies:
@@ -338,7 +369,7 @@ class CallMixin:
         res = self.fresh_val("ret", kind=c.result_kind, cls=rcls)
         if c.ghost.get("result_fresh"):
             res.fresh = TRUE
-        sp = SpecEval(self, {**env, "result": res})
+        sp = SpecEval(self, {**env, "result": res}, glob=find_function(c.key).glob)
         post = sp.compile_bool(c.returns)
         st.assume(post)
         if rcls is not None:
